@@ -9,6 +9,7 @@ import (
 	"os"
 	"path/filepath"
 	"sort"
+	"strconv"
 	"strings"
 
 	"verifharness/core"
@@ -176,6 +177,38 @@ func genBatchCase(rng *rand.Rand) BatchCase {
 		c.Msgs = append(c.Msgs, m)
 		id += 1 + uint64(rng.Intn(3))
 	}
+	if c.Kind.Kinesis != "" && shape == 6 {
+		// boundary fill: the LAST record brings data+key BYTES to the 5 MiB budget + d, d in -64..64 (half of
+		// them within +-8), so that any miscount of a few bytes per record (key length in characters, a
+		// forgotten key, an off-by-one in the comparison) decides differently from the limit
+		c.Msgs = c.Msgs[:0]
+		c.Mode = "gen-boundary-fill"
+		d := rng.Intn(129) - 64
+		if rng.Intn(2) == 0 {
+			d = rng.Intn(17) - 8
+		}
+		sum, id := 0, uint64(rng.Intn(1000))
+		for sum < awsMaxBatchBytes+d {
+			k := rng.Intn(len(keys))
+			m := Msg{ID: id, Op: []string{"INSERT", "UPDATE", "DELETE"}[rng.Intn(3)], Table: "public.t", Key: keys[k], Txn: strings.Split(keys[k], "-")[0], Wal: uint64(1000 + rng.Intn(100000)), PKey: c.PKey}
+			kl := len(c.PKey)
+			if c.Kind.Kinesis == "walstart" {
+				kl = len(strconv.FormatUint(m.Wal, 10))
+			}
+			m.JLen = 800000 + rng.Intn(awsMaxRecordBytes-800000+1)
+			if left := awsMaxBatchBytes + d - sum - kl; left <= awsMaxRecordBytes {
+				if left < 0 {
+					left = 0
+				}
+				m.JLen = left
+			} else if left-m.JLen < 2000 {
+				m.JLen -= 4000 // leave room for a last record with its key
+			}
+			sum += m.JLen + kl
+			c.Msgs = append(c.Msgs, m)
+			id += 1 + uint64(rng.Intn(3))
+		}
+	}
 	return c
 }
 
@@ -217,7 +250,7 @@ func init() {
 		for i := 0; i < n; i++ {
 			cases = append(cases, genBatchCase(rng))
 		}
-		rep.Rule = "corpus first, then seeded Add sequences on real GenericBatch (size 1..5) and KinesisBatch (both key methods): sizes drawn from {0,1,..,1MiB-1,1MiB,1MiB+1,700000} mixtures so that the 1 MiB, 5 MiB and 500-record limits are crossed; partition keys incl. empty (invalid) and 256 bytes; ~8% BEGIN/COMMIT. Non-trivial: at least one Add refused or dropped; distinct by (kind, key, sizes, ops)."
+		rep.Rule = "corpus first, then seeded Add sequences on real GenericBatch (size 1..5) and KinesisBatch (both key methods): sizes drawn from {0,1,..,1MiB-1,1MiB,1MiB+1,700000} mixtures so that the 1 MiB, 5 MiB and 500-record limits are crossed; partition keys incl. empty (invalid), 256 bytes and non-ASCII (bytes differ from characters); 1/10 of the Kinesis cases are boundary fills (the last record brings data+key bytes to 5 MiB + d, |d| <= 64); ~8% BEGIN/COMMIT. Non-trivial: at least one Add refused or dropped; distinct by (kind, key, sizes, ops)."
 		var sb strings.Builder
 		sb.WriteString("From Bifrost.model Require Import Base Batch.\nDefinition cases : list bcase := [\n")
 		seen := map[string]bool{}
